@@ -116,6 +116,16 @@ example : (encodeMessage none ([⟨"a", none, none, none, true, 8, .int32⟩].ma
 example : (encodeMessage none ([⟨"a", none, none, none, true, 8, .uint32⟩].map Obj.toParam) (.dict [("a", .atom (.int 254))]) none true).toOption
     = some ([254], 0) := by decide +kernel
 
+/-- **Open finding `condensed-bit-mask-index-error`, exhibited in the model.** A condensed BIT-MASK whose number
+    of one-bits needs fewer bytes than BIT-LENGTH makes the used-bits mask shorter than the coded object:
+    `emplace_bytes` indexes past its end (IndexError — a foreign exception); three witnesses. -/
+theorem C04_condensed_counterexample :
+    let p : Param := .mk "x" none none (.value (.simple (.std .uint32 none true 16 (some 0x0ff0) true) .uint32 .identical) none)
+    errClass (encodeMessage none [p] (.dict [("x", .atom (.int 0))]) none true) = some .foreign ∧
+    errClass (encodeMessage none [p] (.dict [("x", .atom (.int 0x0550))]) none true) = some .foreign ∧
+    errClass (encodeMessage none [p] (.dict [("x", .atom (.int 65535))]) none true) = some .foreign := by
+  decide +kernel
+
 /-- the witnesses of the pinned-commit defect are now rejected -/
 example : ¬ Spec.representable none 8 200 ∧ ¬ Spec.representable none 8 (-129) ∧
     ¬ Spec.representable (some .onec) 8 128 ∧ ¬ Spec.representable (some .sm) 8 128 := by
